@@ -6,6 +6,7 @@
 #include "galois/graphs/GraphHelpers.h"
 #include "galois/gstl.h"
 
+#include <boost/iterator/counting_iterator.hpp>
 #include <list>
 #include <vector>
 
@@ -21,6 +22,14 @@ void divide() {
   auto r = galois::runtime::makeStandardRange(v.begin(), v.end());
   (void)r.local_begin();
   (void)r.local_end();
+
+  // SpecificRange is only used by libcusp (not built): instantiate it the way DistGraph does, over node ids
+  std::vector<uint32_t> tr(5);
+  auto sr = galois::runtime::makeSpecificRange(boost::counting_iterator<uint32_t>(0), boost::counting_iterator<uint32_t>(40), tr.data());
+  (void)sr.block_pair();
+  (void)sr.local_begin();
+  (void)sr.local_end();
+  galois::do_all(sr, [](uint32_t) {});
 
   std::vector<uint64_t> ps(10);
   std::vector<unsigned> sf;
